@@ -76,7 +76,9 @@ def gen_case(rng, i):
             'map': {'B': 256 if i % 12 == 7 else rng.choice([1, 2, 5, 10, 12]), 'f': list(FACTORS[i % len(FACTORS)]),
                     'chunk': rng.randint(1, 4),
                     'P': rng.randint(1, 3), 'seed': rng.randrange(10 ** 5), 'K': rng.randint(0, 3),
-                    'qenc': rng.choice(['dense', 'csr', 'csc'])}}
+                    'qenc': rng.choice(['dense', 'csr', 'csc', 'csc']),
+                    # memory budget of the on-disk CSC -> CSR conversion of the query (tiny: several row blocks)
+                    'max_gb': rng.choice([1, 1e-7, 1e-8])}}
 
 
 def _names(rng, prefix, n):
@@ -224,7 +226,8 @@ def _case(args):
         m = case['map']
         conf = build.mapping_config(d, d / 'q.h5ad', d / 'stats.h5', d / 'm.json',
                                     {'B': m['B'], 'fnum': m['f'][0], 'fden': m['f'][1], 'chunk': m['chunk'],
-                                     'seed': m['seed'], 'K': m['K'], 'P': m['P'], 'norm': 'log2CPM'})
+                                     'seed': m['seed'], 'K': m['K'], 'P': m['P'], 'norm': 'log2CPM',
+                                     'max_gb': m.get('max_gb', 1)})
         RH = list(H)                      # the levels the run votes on
         if case.get('reduce') == 'flatten':
             conf['flatten'] = True
